@@ -3,6 +3,7 @@ package gobinlog_test
 import (
 	"encoding/binary"
 	"math/rand"
+	"strings"
 )
 
 // allCfgs enumerates the wire configurations of C01's quantifier. (rows v2 with 4-byte table ids
@@ -1437,6 +1438,34 @@ func scriptScenario(r *rand.Rand, cfg WireCfg, steps [][]string) (*Log, AttemptP
 	return l, a
 }
 
+// crossScenario replays a behaviour of two Stream calls: the script of the first call ends with its return, whatever is
+// still parked at a hook point then (the first call's reader, if the behaviour has not let it leave yet) stays parked, and
+// the second call's script - which contains the remaining steps of that reader - goes on from there. The second call is
+// served from a history of its own (the caller sets the position before it), built from the packets the behaviour reads.
+func crossScenario(e *Env, id int, cfg WireCfg, steps [][]string, second int) {
+	l1, a1 := scriptScenario(e.R, cfg, steps[:second])
+	a1.Detain, a1.SkipError, a1.HookTrace = true, true, false
+	var own [][]string
+	for _, st := range steps[second:] {
+		if len(st) >= 2 && st[len(st)-1] == "1" && strings.HasPrefix(st[0], "Reader") {
+			continue
+		}
+		own = append(own, st)
+	}
+	l2, a2 := scriptScenario(e.R, cfg, own)
+	l2.Files[0].Name = "second-bin.000001"
+	l2.Layout()
+	a2.Script = steps[second:]
+	a2.HookTrace = false
+	a2.Log = l2
+	a2.LeakFirst = id%2 == 1
+	clean := defaultAttempt()
+	clean.Log = l2
+	RunStreamScenario(e.Rec, &StreamScenario{ID: id, Fam: "c05g", Log: l1, Start: l1.Boundaries()[0], ServerID: 13,
+		Attempts: []AttemptPlan{a1, a2, clean}, SetPosBefore: map[int]Pos{1: l2.Boundaries()[0]}, Note: "tlc-cross",
+		Model: M{"result": "none", "eres": "none", "complete": false, "rexit": "none"}})
+}
+
 // modeC05g replays the schedules TLC generated from MC_Conn, each followed by a clean attempt on the same Streamer.
 func modeC05g(e *Env) {
 	var cfgs []WireCfg
@@ -1457,6 +1486,24 @@ func modeC05g(e *Env) {
 			steps = append(steps, st)
 		}
 		if len(steps) == 0 {
+			continue
+		}
+		ncalls, second := 0, 0
+		for k, st := range steps {
+			if st[0] == "Call" {
+				if ncalls++; ncalls == 2 {
+					second = k
+				}
+			}
+		}
+		if ncalls == 2 {
+			// a behaviour over two Stream calls on the same Streamer (Cover_Conn's cross transitions: the reader of the first
+			// call takes a step while the second call is under way)
+			if !e.Thorough() && (i+int(e.Seed))%3 != 0 {
+				continue
+			}
+			id++
+			crossScenario(e, id, cfgs[i%len(cfgs)], steps, second)
 			continue
 		}
 		if complete, _ := s["complete"].(bool); !complete && !e.Thorough() && (i+int(e.Seed))%12 != 0 && steps[len(steps)-1][0] != "end" {
